@@ -142,7 +142,7 @@ class Layouts:
         return out
 
     # ------------------------------------------------------------ lookup
-    def _resolve(self, ty, kind):
+    def _resolve(self, ty, kind, crate=None):
         """ty: a MIR type string such as `mantra_dex_std::pool_manager::Config` or `PoolInfo`
         or `std::result::Result<A, B>`.  Returns key or None."""
         base = type_base(ty)
@@ -153,6 +153,13 @@ class Layouts:
             return None
         if len(cands) == 1:
             return cands[0]
+        if crate:
+            cr = crate.replace('-', '_')
+            own = [k for k in cands if k[0] == cr]
+            if own and (len(segs) == 1 or segs[0] not in [k[0] for k in cands]):
+                cands = own
+                if len(cands) == 1:
+                    return cands[0]
         # disambiguate with path segments
         best = None
         bscore = -1
@@ -167,19 +174,19 @@ class Layouts:
                 best, bscore = k, score
         return best
 
-    def enum_variants(self, ty):
-        k = self._resolve(ty, 'enum')
+    def enum_variants(self, ty, crate=None):
+        k = self._resolve(ty, 'enum', crate)
         return self.enums.get(k) if k else None
 
-    def struct_fields(self, ty):
-        k = self._resolve(ty, 'struct')
+    def struct_fields(self, ty, crate=None):
+        k = self._resolve(ty, 'struct', crate)
         return self.structs.get(k) if k else None
 
     def is_enum(self, ty):
         return self._resolve(ty, 'enum') is not None
 
-    def variant_index(self, ty, variant):
-        vs = self.enum_variants(ty)
+    def variant_index(self, ty, variant, crate=None):
+        vs = self.enum_variants(ty, crate)
         if vs is None:
             return None
         for i, (n, _) in enumerate(vs):
